@@ -35,7 +35,7 @@ PROPS["C16"] = {
 
 PROPS["C18"] = {
     "patterns": ["./mrz", "./password"],
-    "harness": {"mrz": ["mrz/c18.go"]},
+    "harness": {"mrz": ["mrz/c18.go"], "password": ["password/c18.go"]},
     "level_text": "All 90/72/88 characters of a zone are symbolic bytes (full byte range). The SSA of MrzDecode/decodeTD1-3/verifyCheckdigit/calcCheckdigit/DecodeValue/ConvertMrzToMrzi/extractMrziTD1-3/buildMrzi/EncodeMrzi/encodeValue is executed symbolically next to an independent ICAO 9303 reference (check digit per 9303-3 §4.9, field positions per 9303-4/5/6, extended document numbers). z3 shows: accepted => every non-empty checked field (document number incl. every extended split, birth, expiry, TD3 optional data) and the composite carry the reference check digit; a zone over the ICAO alphabet with correct check digits (one concrete name) is accepted and every decoded field equals its character range with fillers removed; the key seed from the full MRZ equals the seed from the decoded fields re-encoded and equals number‖cd‖birth‖cd‖expiry‖cd. The per-character value functions of implementation and reference are compared by exhaustive 256-entry table evaluation (LUT canonicalisation), the rest by the solver.",
     "level_note": "Bounded/abstracted: ParseName is over-approximated in the soundness and route harnesses (may accept or reject) and concretised to one name in the completeness harness; quick tier restricts birth/expiry to digits in the route harness (thorough lifts it); strings of other lengths are not in this check (C12). The unset-field rule ('<' check digit on an all-filler field) is accepted behaviour. Password.Key (SHA-1 of the seed) is checked under C05. Trusted: gosym, models of strings.ReplaceAll/Trim*/Index/Repeat, strconv.Itoa for one-digit values, z3.",
     "bounds": "layouts TD1/TD2/TD3, every byte value at every position; extended document numbers with all 13 split positions; unwind 100",
@@ -44,7 +44,9 @@ PROPS["C18"] = {
     "jobs": [
         {"func": "verifH_C18_cd_step", "pkg": "mrz", "params": {"N": [0, 1, 2]}, "unwind": 64, "canon8": True, "expect_reach": ["step"]},
         {"func": "verifH_C18_sound", "pkg": "mrz", "params": {"layout": [1, 2, 3]}, "unwind": 100, "canon8": True, "stubs": ["mrz.ParseName:nondet"], "expect_reach": ["accepted", "rejected"]},
-        {"func": "verifH_C18_complete", "pkg": "mrz", "params": {"layout": [1, 2, 3]}, "unwind": 100, "canon8": True, "expect_reach": ["decoded"]},
+        {"func": "verifH_C18_complete", "pkg": "mrz", "params": {"layout": [1, 2], "extk": [2, 4]}, "params_thorough": {"extk": [2, 3, 4, 5, 6]}, "unwind": 100, "canon8": True, "expect_reach": ["extended"]},
+        {"func": "verifH_C18_complete", "pkg": "mrz", "params": {"layout": [1, 2, 3], "extk": 0}, "unwind": 100, "canon8": True, "expect_reach": ["decoded"]},
+        {"func": "verifH_C18_fields", "pkg": "password", "params": {"layout": [1, 2, 3], "dates_digits": 1}, "params_thorough": {"dates_digits": 0}, "unwind": 100, "canon8": True, "stubs": ["mrz.ParseName:nondet"], "expect_reach": ["fields"]},
         {"func": "verifH_C18_routes", "pkg": "mrz", "params": {"layout": [1, 2, 3], "dates_digits": 1}, "params_thorough": {"dates_digits": 0}, "unwind": 100, "canon8": True, "stubs": ["mrz.ParseName:nondet"], "expect_reach": ["re-encoded"]},
     ],
 }
